@@ -55,11 +55,12 @@ const (
 	OpSaveCS // SaveChangeSet built from the pending ops (C15)
 	OpExportOpen
 	OpExportClose
+	OpColdDelTo   // new instance; DeleteVersionsTo(n) before anything was loaded; Load (an offline pruning tool)
 	OpColdDelFrom // new instance; DeleteVersionsFrom(v+1) before anything was loaded; Load (an offline rollback)
 	OpHold        // obtain and keep the ImmutableTree of every retained version (read again in every later state)
 )
 
-var opNames = [...]string{"Set", "Remove", "SaveVersion", "Rollback", "Reopen", "LoadVersion", "DeleteVersionsTo", "LoadVersionForOverwriting", "DeleteVersionsFrom+LoadVersion", "SetNil", "Read", "ExportImport", "SaveChangeSet", "ExportOpen", "ExportClose", "DeleteVersionsFromOnFreshInstance+Load", "HoldVersions"}
+var opNames = [...]string{"Set", "Remove", "SaveVersion", "Rollback", "Reopen", "LoadVersion", "DeleteVersionsTo", "LoadVersionForOverwriting", "DeleteVersionsFrom+LoadVersion", "SetNil", "Read", "ExportImport", "SaveChangeSet", "ExportOpen", "ExportClose", "DeleteVersionsToOnFreshInstance+Load", "DeleteVersionsFromOnFreshInstance+Load", "HoldVersions"}
 
 type Op struct {
 	Kind OpKind `json:"kind"`
@@ -128,6 +129,8 @@ func (o Op) String() string {
 		return fmt.Sprintf("ExportOpen(v%d)", o.Ver)
 	case OpExportClose:
 		return fmt.Sprintf("ExportClose(v%d)", o.Ver)
+	case OpColdDelTo:
+		return fmt.Sprintf("NewInstance; DeleteVersionsTo(%d); Load", o.Ver)
 	case OpColdDelFrom:
 		return fmt.Sprintf("NewInstance; DeleteVersionsFrom(%d); Load", o.Ver+1)
 	case OpHold:
@@ -138,7 +141,7 @@ func (o Op) String() string {
 
 func isMaint(k OpKind) bool {
 	switch k {
-	case OpReopen, OpLoadVersion, OpDelTo, OpLVFO, OpDelFrom, OpImport, OpColdDelFrom:
+	case OpReopen, OpLoadVersion, OpDelTo, OpLVFO, OpDelFrom, OpImport, OpColdDelFrom, OpColdDelTo:
 		return true
 	}
 	return false
@@ -429,6 +432,27 @@ func (w *World) apply(op Op) *Violation {
 		return w.applyExportOpen(op)
 	case OpExportClose:
 		return w.applyExportClose(op)
+	case OpColdDelTo:
+		for _, es := range w.exps {
+			for _, e := range es {
+				e.Close()
+			}
+		}
+		w.exps = map[int64][]*iavl.Exporter{}
+		w.held, w.heldC = nil, nil
+		_ = w.Tree.Close()
+		w.Tree = w.open(w.Cfg)
+		m.Reopen()
+		err := w.Tree.DeleteVersionsTo(op.Ver)
+		ok := m.DeleteVersionsTo(op.Ver)
+		if ok != (err == nil) {
+			return viol("api", "DeleteVersionsTo(%d) on a fresh instance err=%v, model ok=%v", op.Ver, err, ok)
+		}
+		got, err := w.Tree.Load()
+		if err != nil || got != m.Latest {
+			return viol("api", "Load() after DeleteVersionsTo(%d) on a fresh instance = %d, %v; model latest %d", op.Ver, got, err, m.Latest)
+		}
+		return nil
 	case OpColdDelFrom:
 		for _, es := range w.exps {
 			for _, e := range es {
